@@ -172,6 +172,15 @@ func (g *gen) calleeForeign(call *ast.CallExpr) bool {
 	if g.instr[p] || p == mcPath {
 		return false
 	}
+	// package-level functions that are themselves replaced by a shim function
+	// (time.After, time.Tick) are not foreign
+	if sig, ok := fn.Type().(*types.Signature); ok && sig.Recv() == nil {
+		if t := replTable[p]; t != nil {
+			if _, ok := t[fn.Name()]; ok {
+				return false
+			}
+		}
+	}
 	// methods of a type that is itself replaced by a shim type are not foreign
 	if sig, ok := fn.Type().(*types.Signature); ok && sig.Recv() != nil {
 		rt := sig.Recv().Type()
@@ -509,6 +518,11 @@ func (g *gen) rewriteSelect(x *ast.SelectStmt) ast.Stmt {
 	def := "false"
 	if hasDefault {
 		def = "true"
+	} else {
+		// a select without default is a terminating statement when its arms
+		// are; keep that property for the switch
+		clauses = append(clauses, &ast.CaseClause{List: nil, Body: []ast.Stmt{
+			&ast.ExprStmt{X: call(ast.NewIdent("panic"), &ast.BasicLit{Kind: token.STRING, Value: strconv.Quote("mc: unreachable select arm")})}}})
 	}
 	args := append([]ast.Expr{ast.NewIdent(def)}, lhs...)
 	sw := &ast.SwitchStmt{Tag: call(mcSel("Select"), args...), Body: &ast.BlockStmt{List: clauses}}
@@ -631,7 +645,16 @@ func (g *gen) fixImports(f *ast.File) {
 		decls = append(decls, decl)
 	}
 	f.Decls = decls
-	if g.usedMC {
+	used := false
+	ast.Inspect(f, func(n ast.Node) bool {
+		if se, ok := n.(*ast.SelectorExpr); ok {
+			if id, ok := se.X.(*ast.Ident); ok && id.Name == mcName {
+				used = true
+			}
+		}
+		return !used
+	})
+	if used {
 		spec := &ast.ImportSpec{Name: ast.NewIdent(mcName), Path: &ast.BasicLit{Kind: token.STRING, Value: strconv.Quote(mcPath)}}
 		f.Decls = append([]ast.Decl{&ast.GenDecl{Tok: token.IMPORT, Specs: []ast.Spec{spec}}}, f.Decls...)
 	}
